@@ -444,9 +444,9 @@ def run(ctx):
                         chains += [c for c in itertools.permutations(("vector", "scalar", "pytree", "images", "expand"), 3)][::7]
                     for c in chains:
                         jobs.append((ctx.repo, "chain", D, s, nl, dict(ops=list(c))))
-    results = ctx.pmap(worker, jobs)
+    results = ctx.pairs(worker, jobs)
     by = {}
-    for job, r in zip(jobs, results):
+    for job, r in results:
         if r.get("skip"):
             continue
         cfg = r["cfg"]
